@@ -3,10 +3,11 @@
 Writes /verif/seeded/REVERIFY.json. (The repo test suite part is not repeated here; it was run at adoption time, see meta.json.)"""
 import glob, json, os, subprocess, sys, time
 V = "/verif"
+OUT = os.environ.get("REVERIFY_OUT", V + "/seeded/REVERIFY.json")  # shards write their own file; merge with tools/reverify_merge.py
 NCHECKS = int(os.environ.get("REVERIFY_NCHECKS", "1"))  # how many of the listed detecting checks are re-run per change (the first = usually the property's own)
 out = {}
-if os.environ.get("REVERIFY_RESUME") and os.path.exists(V + "/seeded/REVERIFY.json"):
-    out = json.load(open(V + "/seeded/REVERIFY.json"))
+if os.environ.get("REVERIFY_RESUME") and os.path.exists(OUT):
+    out = json.load(open(OUT))
 only = sys.argv[1:]
 for d in sorted(glob.glob(V + "/seeded/*/")):
     sid = os.path.basename(d.rstrip("/"))
@@ -36,4 +37,4 @@ for d in sorted(glob.glob(V + "/seeded/*/")):
     subprocess.run("git -C /repo worktree remove --force %s; git -C /repo worktree prune" % wt, shell=True, capture_output=True)
     out[sid] = rec
     print(sid, json.dumps(rec)[:300], flush=True)
-    json.dump(out, open(V + "/seeded/REVERIFY.json", "w"), indent=1)
+    json.dump(out, open(OUT, "w"), indent=1)
